@@ -1067,7 +1067,7 @@ def create_joint_distribution(
                 raise ValueError(
                     f'{name} describes IOV: Joining IOV random variables is currently not supported'
                 )
-    if len(rvs) == 1:
+    if len(rvs) < 2:
         raise ValueError('At least two random variables are needed')
 
     sset = model.statements
